@@ -101,7 +101,7 @@ func (sim) Explain(prop string, st map[string]int64) string {
 	case "C02":
 		probes = []string{"probe.c02w-checked", "probe.c02w-with-unconfirmed", "probe.c02w-direct-construction-compared", "probe.c02w-compared-with-both-kinds", "probe.reorg-with-wallet-tx", "probe.restart-tip-not-on-chain", "probe.node-moved-while-stopped", "fault.crash-at-commit"}
 	case "C13":
-		probes = []string{"probe.c13w-checked", "probe.c13w-with-unconfirmed", "probe.reorg-with-wallet-tx"}
+		probes = []string{"probe.c13w-checked", "probe.c13w-with-unconfirmed", "probe.reorg-with-wallet-tx", "probe.same-address-paid-twice-by-one-transaction", "probe.c13w-own-outputs-checked"}
 	case "C01":
 		probes = []string{"probe.c01w-checked", "probe.c01w-with-leases", "probe.c01w-unconfirmed-credit", "probe.c01w-immature-coinbase", "probe.c01w-account-balances-checked"}
 	case "C15":
@@ -599,7 +599,13 @@ func (rs *runState) exec(task, step int, op core.Op) {
 		if v < 1000 {
 			v = 1000
 		}
-		tx := x.foreignTx([]*wire.TxOut{payTo(a.addr, v), {Value: 777, PkScript: foreignScript(x.foreignN)}})
+		outs := []*wire.TxOut{payTo(a.addr, v), {Value: 777, PkScript: foreignScript(x.foreignN)}}
+		if (x.prop == "C13" || x.prop == "C01") && (v/1e6)%4 == 0 {
+			// the same address paid twice by one transaction
+			outs = append(outs, payTo(a.addr, v/4+1000))
+			env.Count("probe.same-address-paid-twice-by-one-transaction")
+		}
+		tx := x.foreignTx(outs)
 		if err := x.node.Accept(tx); err == nil {
 			x.funding = append(x.funding, tx)
 			env.Count("op.fund")
@@ -1382,6 +1388,7 @@ func (rs *runState) crashsync(task, step int, op core.Op) {
 		return
 	}
 	x.stop()
+	x.hadCrash = true
 	if err := os.WriteFile(x.dbPath, img, 0o600); err != nil {
 		x.env.Infra("write crash image: %v", err)
 		return
